@@ -153,7 +153,7 @@ theorem installed_refines {w : WM} {iss : List Handle} {s : WS} (hi : Inv ⟨w, 
     (hr : Rel ⟨w, iss⟩ s) {w' : WM} {e : Handle} {k ai : Nat} {vals : List Val}
     (hk : iss[k]? = some e) (hpe : e ∈ createHandles w.buffers)
     (htab : tabOf w' = (tabOf w).install e) (hs : Step w w' e.id) (ho : Owns w' e ai vals)
-    (hsh' : SharedPooled w') (hcl' : Mustache.Model.ArchsClosed w'.deps w'.archs)
+    (hsh' : SharedPooled w')
     (hwid : w'.worldId = w.worldId) (hdeps : w'.deps = w.deps) (hpool : w'.pool = w.pool)
     (hni : w'.nextInst = w.nextInst) (hld : w'.lockDepth = w.lockDepth) (hnt : w'.nthreads = w.nthreads)
     (hmk : w'.marked = w.marked) (hcov : w'.slots.length ≤ w'.locs.length) (hb' : Bounds ⟨w', iss⟩)
@@ -193,7 +193,7 @@ theorem installed_refines {w : WM} {iss : List Handle} {s : WS} (hi : Inv ⟨w, 
         · rw [hpool]; exact hi.pool.insts_nodup
         · rw [hpool, hni]; exact hi.pool.inst_lt
         · rw [hpool]; exact hi.pool.inst_sid
-      shared := hsh', closed := hcl'
+      shared := hsh'
       depsB := by show DepsBounded w'.deps; rw [hdeps]; exact hi.depsB
       locsCover := hcov
       bufLe := by show w'.buffers.length ≤ w'.nthreads; rw [hblen, hnt]; exact hi.bufLe
